@@ -78,6 +78,8 @@ func (m *SubscribeMessage) AddTopic(topic []byte, qos byte) error {
 
 	if found {
 		m.qos[i] = qos
+		// a decoded message must not be encoded from its cached bytes any more
+		m.dirty = true
 		return nil
 	}
 
